@@ -42,7 +42,7 @@ func TestVerifC07(t *testing.T) {
 	vocab := vVocab(c)
 	q := c.q
 
-	kinds := []string{"exact", "M5", "M15", "M20", "TH", "TT", "TWH", "TWT", "M18", "M22", "CC", "scenario"}
+	kinds := []string{"exact", "M5", "M15", "M20", "TH", "TT", "TWH", "TWT", "M18", "M22", "FRAG", "CC", "scenario"}
 	type cdesc struct {
 		kind string
 		doc  int
@@ -51,7 +51,7 @@ func TestVerifC07(t *testing.T) {
 	rr := rand.New(rand.NewSource(e.seed*999983 + 7))
 	if e.quick() {
 		for di := range docs {
-			cases = append(cases, cdesc{kinds[di%8], di}, cdesc{kinds[1+(di+2)%3], di}, cdesc{kinds[6+di%2], di}, cdesc{kinds[8+di%2], di}, cdesc{"M20", di})
+			cases = append(cases, cdesc{kinds[di%8], di}, cdesc{kinds[1+(di+2)%3], di}, cdesc{kinds[6+di%2], di}, cdesc{kinds[8+di%2], di}, cdesc{"M20", di}, cdesc{"FRAG", di})
 		}
 		for k := 0; k < 60; k++ {
 			cases = append(cases, cdesc{"CC", rr.Intn(len(docs))})
@@ -59,7 +59,7 @@ func TestVerifC07(t *testing.T) {
 	} else {
 		for rep := 0; rep < 3; rep++ {
 			for di := range docs {
-				for _, k := range kinds[:10] {
+				for _, k := range kinds[:11] {
 					cases = append(cases, cdesc{k, di})
 				}
 			}
@@ -97,6 +97,26 @@ func TestVerifC07(t *testing.T) {
 				x = vTruncate(r, raw, true)
 			case "TT":
 				x = vTruncate(r, raw, false)
+			case "FRAG":
+				// fragments of one license: its first part, a few unrelated words, then the
+				// license again from an earlier point onward (overlapping), or two far-apart
+				// parts
+				w := strings.Fields(raw)
+				if len(w) < 30 {
+					x = raw
+					break
+				}
+				a := len(w) * (30 + r.Intn(30)) / 100
+				b := len(w) * (5 + r.Intn(35)) / 100
+				gap := strings.Join(strings.Fields(vOOVLine(r))[:1+r.Intn(3)], " ")
+				switch r.Intn(3) {
+				case 0:
+					x = strings.Join(w[:a], " ") + "\n" + gap + "\n" + strings.Join(w[b:], " ")
+				case 1:
+					x = strings.Join(w[:a], " ") + " " + gap + " " + strings.Join(w[a+len(w)/4:], " ")
+				default:
+					x = strings.Join(w[b:], " ") + "\n" + gap + "\n" + strings.Join(w[:a], " ")
+				}
 			case "TWH", "TWT":
 				// word-level truncation (also of very short documents): 5-19% of the
 				// words missing at the head or at the tail
@@ -136,6 +156,11 @@ func TestVerifC07(t *testing.T) {
 			farLines := 1100 + r.Intn(200) // >= 10 000 filler tokens would be slow to generate per case; ~7 words/line
 			pre := vOOVBlock(r, 1+r.Intn(40))
 			post := vOOVBlock(r, 1+r.Intn(40))
+			if r.Intn(3) == 0 {
+				// blocks of about half of X's length and more on both sides
+				n := len(strings.Fields(x))/14 + 2
+				pre, post = vOOVBlock(r, n+r.Intn(n)), vOOVBlock(r, n+r.Intn(n))
+			}
 			far := vOOVBlock(r, farLines)
 			post2 := vOOVBlock(r, 1+r.Intn(10))
 			type placement struct {
